@@ -9,7 +9,8 @@ def run(tier):
     c = Check("C01", tier)
     exe = driver("asan")
     # M: all spellings of all lines of the bounded family agree with the declarative meaning (AgreesInv)
-    cfgs, beh = model_behaviours(c, tier, cfgsel=[1, 2, 4, 7, 13])
+    # 20: value arguments (DEST_VAR_VALUE) sharing a variable, 21: pair arguments (DEST_PAIR)
+    cfgs, beh = model_behaviours(c, tier, cfgsel=[1, 2, 4, 7, 13, 20, 21])
     # R: every spelling of every VALID line of the model through the real handler
     script = os.path.join(c.wd, "replay.ndjson")
     n = behaviours_script(cfgs, beh, script, select=lambda b: b["valid"])
